@@ -1,13 +1,161 @@
-import Ruint.Model.Radix
-import Ruint.Model.Fmt
-import Ruint.Spec.Radix
+import Ruint.Lemmas.Radix
+-- import Ruint.Lemmas.Fmt
+-- import Ruint.Lemmas.Str
 
+/-!
+# C09 — radix conversion, parsing and formatting agree with positional notation
+
+Property theorems only. Every theorem quantifies over **all** widths `bits`, all values / digit lists / strings and
+all bases in the stated range. The model functions (`Ruint.Radix.*`, `Ruint.Fmt.*`) are the ones the
+correspondence driver executes against the real `Uint` methods. Positional notation is Mathlib's
+`Nat.digits` / `Nat.ofDigits` (little-endian) and core's `Nat.toDigits` (text).
+-/
 namespace Ruint.C09
 open Ruint Ruint.Radix
 
-/-- `base < 2` is `InvalidBase` (placeholder while the lemma files are being written). -/
-theorem from_base_be_invalid_base (bits base : Nat) (ds : List Nat) (h : base < 2) :
-    fromBaseBE bits base ds = .error (.invalidBase base) := by
-  simp [fromBaseBE, h]
+/-! ## digit iterators -/
+
+/-- `to_base_le(base).collect()` yields exactly the base-`base` digits of the value, least significant first
+    (no digits for zero), for every base `≥ 2`. -/
+theorem to_base_le_spec (bits base v : ℕ) (hb : 2 ≤ base) (hv : v < 2 ^ bits) :
+    toBaseLE bits base v = some (Nat.digits base v) := by
+  have : base > 1 := by omega
+  simp only [toBaseLE, this, if_true]
+  rw [collect_eq base hb bits v hv]
+
+/-- `to_base_be(base)` yields the same digits, most significant first. -/
+theorem to_base_be_spec (bits base v : ℕ) (hb : 2 ≤ base) (hv : v < 2 ^ bits) :
+    toBaseBE bits base v = some (Nat.digits base v).reverse := by
+  have : base > 1 := by omega
+  simp only [toBaseBE, this, if_true]
+  rw [collect_eq base hb bits v hv]
+
+/-- both iterators panic (`assert!(base > 1)`) for `base < 2`. -/
+theorem to_base_panics (bits base v : ℕ) (hb : base < 2) :
+    toBaseLE bits base v = none ∧ toBaseBE bits base v = none := by
+  have : ¬ base > 1 := by omega
+  simp [toBaseLE, toBaseBE, this]
+
+/-- one call of `SpigotLittle::next` on the limb array (short division by a word with a `u128` remainder):
+    `None` exactly when the number *before* the step is zero, else the digit `value mod base`; the state becomes
+    `value / base`, again a well-formed limb array. For every base in `[2, 2^64)`. -/
+theorem spigot_next_limbs_spec (base : ℕ) (hb : 2 ≤ base) (hbW : base < 2 ^ 64) (l : List ℕ) (hl : AllLt l) :
+    (spigotNextLimbs base l).1 = (if val l = 0 then none else some (val l % base))
+    ∧ val (spigotNextLimbs base l).2 = val l / base
+    ∧ (spigotNextLimbs base l).2.length = l.length
+    ∧ AllLt (spigotNextLimbs base l).2 :=
+  spigotNextLimbs_spec base hb hbW l hl
+
+/-- the limb-level spigot run to exhaustion yields `Nat.digits base (val l)`. -/
+theorem spigot_limbs_digits (bits base : ℕ) (hb : 2 ≤ base) (hbW : base < 2 ^ 64) (l : List ℕ) (hl : Canon bits l) :
+    collectLimbs base (bits + 1) l = Nat.digits base (val l) := by
+  rw [collectLimbs_eq base hb hbW _ l hl.2.1, collect_eq base hb bits _ hl.2.2]
+
+/-! ## `from_base_le` / `from_base_be` -/
+
+/-- `from_base_le` returns `Ok v` exactly when every digit is `< base` and the digits denote `v < 2^bits`. -/
+theorem from_base_le_ok_iff (bits base : ℕ) (hb : 2 ≤ base) (ds : List ℕ) (v : ℕ) :
+    fromBaseLE bits base ds = .ok v ↔ (∀ d ∈ ds, d < base) ∧ Nat.ofDigits base ds = v ∧ v < 2 ^ bits := by
+  rw [fromBaseLE_eq_ref bits base hb, refLE_ok_iff]
+  simp only [sumFrom, Nat.zero_add, Nat.one_mul]
+  constructor
+  · rintro ⟨h1, h2, h3⟩
+    refine ⟨h1, h2, ?_⟩
+    by_cases hds : ds = []
+    · subst hds; simp at h2; subst h2; positivity
+    · exact h3 hds
+  · rintro ⟨h1, h2, h3⟩
+    exact ⟨h1, h2, fun _ => h3⟩
+
+/-- all digits valid and the denoted value does not fit: `Overflow`. -/
+theorem from_base_le_overflow (bits base : ℕ) (hb : 2 ≤ base) (ds : List ℕ) (hv : ∀ d ∈ ds, d < base)
+    (h : 2 ^ bits ≤ Nat.ofDigits base ds) : fromBaseLE bits base ds = .error .overflow := by
+  rw [fromBaseLE_eq_ref bits base hb]
+  exact refLE_overflow bits base ds 0 1 (by positivity) hv (by simpa [sumFrom] using h)
+
+/-- a digit `≥ base` after a valid prefix: `InvalidDigit(digit, base)` — unless the prefix alone already denotes a
+    value `≥ 2^bits`, in which case the code has returned `Overflow` before reaching the digit
+    (this is the precedence of the code; the property allows either error for an input wrong in two ways). -/
+theorem from_base_le_invalid_digit (bits base : ℕ) (hb : 2 ≤ base) (pre : List ℕ) (d : ℕ) (post : List ℕ)
+    (hv : ∀ x ∈ pre, x < base) (hd : base ≤ d) :
+    fromBaseLE bits base (pre ++ d :: post) =
+      if Nat.ofDigits base pre < 2 ^ bits then .error (.invalidDigit d base) else .error .overflow := by
+  rw [fromBaseLE_eq_ref bits base hb, refLE_invalid bits base pre d post 0 1 (by positivity) hv hd]
+  simp [sumFrom]
+
+/-- `base < 2`: `InvalidBase`, whatever the digits. -/
+theorem from_base_invalid_base (bits base : ℕ) (hb : base < 2) (ds : List ℕ) :
+    fromBaseLE bits base ds = .error (.invalidBase base) ∧ fromBaseBE bits base ds = .error (.invalidBase base) := by
+  simp [fromBaseLE, fromBaseBE, hb]
+
+/-- `from_base_be` (limb-level Horner with the `u128` carry and the top-limb mask test) returns `Ok l` exactly when
+    every digit is `< base` and `l` is the canonical limb array of the denoted value (which is then `< 2^bits`). -/
+theorem from_base_be_ok_iff (bits base : ℕ) (hb : 2 ≤ base) (ds : List ℕ) (l : List ℕ) :
+    fromBaseBE bits base ds = .ok l ↔
+      (∀ d ∈ ds, d < base) ∧ Canon bits l ∧ val l = Nat.ofDigits base ds.reverse := by
+  have hc := fromBaseBE_cases bits base hb ds
+  constructor
+  · intro h
+    rw [h] at hc
+    obtain ⟨c, r⟩ := hc
+    obtain ⟨r1, r2, _⟩ := (refBE_ok_iff bits base (by omega) ds 0 (val l)).mp r
+    refine ⟨r1, c, ?_⟩
+    rw [← r2, hornerFrom_eq]; simp
+  · rintro ⟨h1, h2, h3⟩
+    have hr : refBE bits base ds 0 = .ok (val l) :=
+      (refBE_ok_iff bits base (by omega) ds 0 (val l)).mpr
+        ⟨h1, by rw [hornerFrom_eq, h3]; simp, fun _ => h2.2.2⟩
+    cases hf : fromBaseBE bits base ds with
+    | error e => rw [hf] at hc; simp only at hc; rw [hr] at hc; cases hc
+    | ok l' =>
+      rw [hf] at hc
+      obtain ⟨c, r⟩ := hc
+      rw [hr] at r
+      have : val l = val l' := by injection r
+      rw [canon_ext bits l l' h2 c this]
+
+/-- all digits valid and the denoted value does not fit: `Overflow`. -/
+theorem from_base_be_overflow (bits base : ℕ) (hb : 2 ≤ base) (ds : List ℕ) (hv : ∀ d ∈ ds, d < base)
+    (h : 2 ^ bits ≤ Nat.ofDigits base ds.reverse) : fromBaseBE bits base ds = .error .overflow := by
+  have hc := fromBaseBE_cases bits base hb ds
+  have hr : refBE bits base ds 0 = .error .overflow :=
+    refBE_overflow bits base ds 0 (by positivity) hv (by rw [hornerFrom_eq]; simpa using h)
+  cases hf : fromBaseBE bits base ds with
+  | error e => rw [hf] at hc; simp only at hc; rw [hr] at hc; injection hc with hc; rw [hc]
+  | ok l => rw [hf] at hc; rw [hr] at hc; cases hc.2
+
+/-- a digit `≥ base` after a valid prefix (big-endian): `InvalidDigit`, unless the prefix already overflowed. -/
+theorem from_base_be_invalid_digit (bits base : ℕ) (hb : 2 ≤ base) (pre : List ℕ) (d : ℕ) (post : List ℕ)
+    (hv : ∀ x ∈ pre, x < base) (hd : base ≤ d) :
+    fromBaseBE bits base (pre ++ d :: post) =
+      if Nat.ofDigits base pre.reverse < 2 ^ bits then .error (.invalidDigit d base) else .error .overflow := by
+  have hc := fromBaseBE_cases bits base hb (pre ++ d :: post)
+  have hr := refBE_invalid bits base (by omega) pre d post 0 (by positivity) hv hd
+  rw [hornerFrom_eq] at hr
+  simp only [Nat.zero_mul, Nat.zero_add] at hr
+  by_cases hlt : Nat.ofDigits base pre.reverse < 2 ^ bits
+  · simp only [hlt, if_true] at hr ⊢
+    cases hf : fromBaseBE bits base (pre ++ d :: post) with
+    | error e => rw [hf] at hc; simp only at hc; rw [hr] at hc; injection hc with hc; rw [hc]
+    | ok l => rw [hf] at hc; rw [hr] at hc; cases hc.2
+  · simp only [hlt, if_false] at hr ⊢
+    cases hf : fromBaseBE bits base (pre ++ d :: post) with
+    | error e => rw [hf] at hc; simp only at hc; rw [hr] at hc; injection hc with hc; rw [hc]
+    | ok l => rw [hf] at hc; rw [hr] at hc; cases hc.2
+
+/-- round trip: `from_base_le(base, to_base_le(base)) = Ok(self)`. -/
+theorem from_base_le_to_base_le (bits base v : ℕ) (hb : 2 ≤ base) (hv : v < 2 ^ bits) :
+    ∃ ds, toBaseLE bits base v = some ds ∧ fromBaseLE bits base ds = .ok v :=
+  ⟨_, to_base_le_spec bits base v hb hv,
+    (from_base_le_ok_iff bits base hb _ v).mpr
+      ⟨fun _ hd => Nat.digits_lt_base (by omega) hd, Nat.ofDigits_digits base v, hv⟩⟩
+
+/-- round trip: `from_base_be(base, to_base_be(base)) = Ok(self)` (as canonical limbs). -/
+theorem from_base_be_to_base_be (bits base : ℕ) (hb : 2 ≤ base) (l : List ℕ) (hl : Canon bits l) :
+    ∃ ds, toBaseBE bits base (val l) = some ds ∧ fromBaseBE bits base ds = .ok l :=
+  ⟨_, to_base_be_spec bits base (val l) hb hl.2.2,
+    (from_base_be_ok_iff bits base hb _ l).mpr
+      ⟨fun _ hd => Nat.digits_lt_base (by omega) (List.mem_reverse.mp hd), hl,
+        by rw [List.reverse_reverse, Nat.ofDigits_digits]⟩⟩
 
 end Ruint.C09
